@@ -38,13 +38,17 @@ type ResolutionResult struct {
 // request to the server using a given server name.
 // Returns an error if the server name isn't valid.
 func ResolveServer(ctx context.Context, serverName spec.ServerName) (results []ResolutionResult, err error) {
-	return resolveServer(ctx, serverName, true)
+	return resolveServer(ctx, serverName, true, nil)
 }
+
+// dialContextFunc is the signature of net.Dialer.DialContext.
+type dialContextFunc func(ctx context.Context, network, address string) (net.Conn, error)
 
 // resolveServer does the same thing as ResolveServer, except it also requires
 // the checkWellKnown parameter, which indicates whether a .well-known file
-// should be looked up.
-func resolveServer(ctx context.Context, serverName spec.ServerName, checkWellKnown bool) (results []ResolutionResult, err error) {
+// should be looked up, and takes the dial function the .well-known request has
+// to be made with (nil for the default HTTP transport).
+func resolveServer(ctx context.Context, serverName spec.ServerName, checkWellKnown bool, dial dialContextFunc) (results []ResolutionResult, err error) {
 	host, port, valid := spec.ParseAndValidateServerName(serverName)
 	if !valid {
 		err = fmt.Errorf("Invalid server name")
@@ -94,10 +98,10 @@ func resolveServer(ctx context.Context, serverName spec.ServerName, checkWellKno
 	if checkWellKnown {
 		// 3. If the hostname is not an IP literal
 		var result *WellKnownResult
-		result, err = LookupWellKnown(ctx, serverName)
+		result, err = lookupWellKnown(ctx, serverName, dial)
 		if err == nil {
 			// We don't want to check .well-known on the result
-			return resolveServer(ctx, result.NewAddress, false)
+			return resolveServer(ctx, result.NewAddress, false, dial)
 		}
 	}
 
